@@ -43,6 +43,10 @@ pub const EXCLUDED: &[(&str, &str)] = &[
     ("from_entries on hand-made entries, ltrimstr-era additions (pick, have_*, abs, toarray, trim, getpath/1, splits, ascii, @base32d)", "changed or added after 1.6"),
     ("pow/log/exp/trigonometry", "last-ulp differences between libm and Rust std are not a property of jq semantics"),
     ("reverse on strings", "1.7 addition"),
+    ("bare try/catch and `?` whose outputs flow on (always emitted as `[try … catch …] | .[]`, `[…?] | .[]`)", "jq 1.6's try/`?` also catches errors and `break`s raised downstream of its outputs (fixed in 1.7); measured: first(… try …), `|=` with try on the right, {a: f?, b: error}"),
+    ("string * n with n <= 0 or fractional n", "1.6: null / the string itself; jq >= 1.7 differs (jqlang/jq#1593), the recordings do not cover it"),
+    ("literal / 0 and other constant-foldable operands of a zero divisor", "jq folds constants at compile time (`1 / 0` is a compile error, `(0 | .) / 0` is NaN in 1.6)"),
+    ("open findings, excluded by construction while open (each has a committed replay)", "sqrt; last(f) of an empty stream; split/`/` on the empty string; index/rindex/indices(string) on an object input"),
     ("walk, combinations, transpose, map_values, min_by/max_by, nth, splits, env", "not in the recorded vocabulary (golden filters + error probes)"),
 ];
 
@@ -1554,7 +1558,8 @@ impl<'a, 'b> Gen<'a, 'b> {
                         E { t: format!("([try {} catch .] | .[])", paren(&body.t)), s: Shape::Any, one: false, err: false }
                     }
                     1 => E { t: format!("([try {} catch \"caught\"] | .[])", paren(&body.t)), s: Shape::Any, one: false, err: false },
-                    2 => E { t: format!("({})?", body.t), s: body.s, one: false, err: false },
+                    2 => E { // collected: jq 1.6's `?`/try also swallows errors and breaks raised downstream of its outputs
+                        t: format!("([({})?] | .[])", body.t), s: body.s, one: false, err: false },
                     _ => E { t: format!("([try {} catch type] | .[])", paren(&body.t)), s: Shape::Any, one: false, err: false },
                 }
             }
@@ -1670,7 +1675,7 @@ impl<'a, 'b> Gen<'a, 'b> {
                 let p = self.path(inp, 3, false);
                 if self.u.ratio(1, 4) && p.t != "." {
                     self.op("optional");
-                    return E { t: format!("{}?", p.t), s: p.s, one: false, err: false };
+                    return E { t: format!("([{}?] | .[])", p.t), s: p.s, one: false, err: false };
                 }
                 p
             }
